@@ -272,7 +272,8 @@ def check_c17(pid, tier, seed, replay):
                          "bond denom}, DeployStaking x 2 senders, UpdateParams x {gov: widen, empty, version 0; self-signed; forged authority}, "
                          "SetDisabled(each registered)} up to depth %s from each of 6 genesis configurations (exhaustive), plus %d random "
                          "sequences of %d operations with edge-case names/symbols/decimals/denoms, Retype and protocol-version fabrication, and 3 "
-                         "scripted scenarios (version downgrade refused, disable/enable, retype, redeploy, whitelist emptied / replaced), and the "
+                         "+1 scripted scenarios (version downgrade refused, disable/enable, retype, redeploy, whitelist emptied / replaced, total supply of a "
+                         "deployed ERC-20 denomination burnt to zero through the precompile and minted back), and the "
                          "'many contracts' scenario(s) registering %s ERC-20 precompiles by real messages (9 per block) with probes after the "
                          "99th / 100th / 101st / last; "
                          "probe inputs: name(), bech32 prefix view, EMPTY calldata with value 0 and 1, 1-3 byte calldata, top-level and through CALL / "
@@ -294,7 +295,7 @@ def check_c17(pid, tier, seed, replay):
         v.cov["selftest"] = tests
         need = ["op.DeployErc20.accepted", "op.DeployErc20.rejected", "op.DeployStaking.accepted", "op.UpdateParams.accepted",
                 "op.UpdateParams.rejected", "op.SetDisabled.accepted", "probe.runs", "probe.refused", "probe.absent", "probe.std",
-                "probe.registered-toplevel-empty-calldata"]
+                "probe.registered-toplevel-empty-calldata", "probe.running-erc20-with-zero-supply"]
         missing = [k for k in need if not cov_total.get(k)]
         if missing and not v.violations:
             raise Infra("conformance run vacuous: outcome classes never seen: %s" % missing)
